@@ -21,12 +21,18 @@ EXTENDS Naturals, Integers, Sequences, FiniteSets, TLC
 \*  +   + or -      =      <      >      !      &  (& or |)     %  (% or ^)
 \*  ~   single-character punctuators  ~ ; , :
 \*  (  )  [  ]  {  }          #   a character that starts no token (# @ `)
+\*  ud  a decimal digit of another script (Unicode Nd outside ASCII: U+0661 U+0663 U+0967 U+FF11).  ID_Continue but
+\*      neither ID_Start nor a DecimalDigit: part of an identifier after its first character, never part of a
+\*      numeric literal, an illegal character where a token must start.  Directly after a numeric literal the
+\*      text is rejected either way (the engine reports "identifier after number" at the literal; ECMA-262 would end
+\*      the literal and reject the character): a num-ident error located from the literal's start on.
 Letters   == {"a", "e", "b", "x", "u", "o", "g"}
 Digits    == {"0", "1", "7", "9"}
 HexDigits == Digits \cup {"a", "e", "b"}
-IdPart    == Letters \cup Digits
+UniDigits == {"ud"}
+IdPart    == Letters \cup Digits \cup UniDigits
 PunctStart == {"+", "*", "=", "!", "<", ">", "&", "%", "~", "(", ")", "[", "]", "{", "}"}
-Classes   == {"sp", "vt", "nl"} \cup Letters \cup Digits \cup {".", "q", "Q", "bs", "/", "#"} \cup PunctStart
+Classes   == {"sp", "vt", "nl"} \cup Letters \cup Digits \cup UniDigits \cup {".", "q", "Q", "bs", "/", "#"} \cup PunctStart
 
 \* multi-character punctuators: (prefix, class) -> longer punctuator
 PunctExt == [pr \in {<<"+", "+">>, <<"+", "=">>, <<"*", "*">>, <<"*", "=">>, <<"=", "=">>, <<"==", "=">>, <<"=", ">">>,
@@ -116,6 +122,7 @@ Step(st, c, dv) ==
          IF c \in Digits THEN AdvTo(st, c, "frac")
          ELSE IF c = "e" THEN AdvTo(st, c, "idote")
          ELSE IF c \in Letters THEN ErrAt(st, c, "num-ident", FALSE, "Dev_NumberDotName")
+         ELSE IF c \in UniDigits THEN ErrAt(st, c, "num-ident", FALSE, "")
          ELSE Emit(st, "num")
     [] md = "idote" -> IF c = "+" THEN AdvTo(st, c, "idotes") ELSE IF c \in Digits THEN AdvTo(st, c, "exp")
                        ELSE ErrAt(st, c, "bad-number", FALSE, "Dev_NumberDotName")
@@ -294,6 +301,7 @@ ClassOfUnit(cu) ==
     [] cu = 123 -> "{"
     [] cu = 125 -> "}"
     [] cu \in {35, 64, 96} -> "#"
+    [] cu \in {1633, 1635, 2407, 65297} -> "ud"                                                   \* U+0661 U+0663 U+0967 U+FF11
     [] OTHER -> "?"
 ClassesOfUnits(us) == [ui \in 1..Len(us) |-> ClassOfUnit(us[ui])]
 \* a text mixes + with - (or & with |, % with ^) : the class machine would fuse what the real lexer keeps apart
